@@ -247,6 +247,10 @@ IMPORTS["C11"] = ["ArimModel.Src"]
 
 # ---- C14: the cache decorator and the cached query methods of RayGeometry, read structurally (py2lean_cache.py)
 import py2lean_cache
-CUSTOM = {"C14": py2lean_cache.translate}
+import py2lean_weights
+CUSTOM = {"C14": py2lean_cache.translate, "C03": py2lean_weights.translate}
+SPECS["C03"] = list(py2lean_weights.SPEC_NAMES)
+IMPORTS["C03"] = ["ArimModel.Assembly"]
+USES["C08"] = list(USES.get("C08", [])) + ["C03"]
 SPECS["C14"] = list(py2lean_cache.SPEC_NAMES)
 IMPORTS["C14"] = ["ArimModel.RayCache"]
